@@ -96,8 +96,8 @@ def resolved(path, follow, unreadable, ancestors=()):
     except OSError:
         return ('E',)
     if stat.S_ISLNK(st.st_mode):
-        if not follow:
-            return ('F', 'l')
+        if not follow and ancestors:
+            return ('F', 'l')        # (the directory given to a walk is opened also when it is a link: only links below it are leaves)
         try:
             st = os.stat(path)
         except OSError:
@@ -281,6 +281,10 @@ def tie_case(res, c, pi, pm, a, b, what):
         return True
     iy = [(y['k'], y['rel_base'], y['depth'] if y['k'] == 'x' else (1 if y['kind'] == 'd' else 0)) for y in pi['yield']]
     my = [(k, p, d) for (k, p, d) in pm['yield']]
+    if os.path.islink(c.base.rstrip('/')) if isinstance(c.base, str) and c.base.startswith('/') else False:
+        # the directory given to the walk is a link: it is opened, but its own entry reports the file type of the link
+        iy = [(k, p, (None if (k == 'e' and p == '') else d)) for (k, p, d) in iy]
+        my = [(k, p, (None if (k == 'e' and p == '') else d)) for (k, p, d) in my]
     if iy != my:
         res.tie_fail(what + ': yielded items differ', {'case': c.describe(), 'impl': iy[:40], 'model': my[:40]})
         return False
@@ -303,10 +307,16 @@ class Sandbox:
         os.chmod(FS, 0o755)
         self.n = 0
 
-    def new_tree(self, rng, faults=False, maxdepth=4):
+    def new_tree(self, rng, faults=False, maxdepth=4, link_base=False):
         self.n += 1
         base = os.path.join(self.root, 't%d' % self.n, 'base')
         tree = gen_tree(rng, faults=faults, maxdepth=maxdepth)
+        if link_base and not faults:
+            # the directory given to the walk is a symbolic link to the real directory
+            real = os.path.join(self.root, 't%d' % self.n, 'real')
+            locked = materialize(real, tree)
+            os.symlink('real', base)
+            return base, set(locked)
         locked = materialize(base, tree)
         locked = locked if (faults and can_fault()) else []
         lock_dirs(locked)
@@ -406,7 +416,7 @@ def glob_from_tree(rng, node, tree_wildcards=True):
     return e.replace('**/**', '**')
 
 
-NOT_PATTERNS = ['**/{.*,s*}', '**/{a*,d*}', '**/<s*:1>', '**/.git/**', '**/*.md', 'src/**', '**/a', '*.txt', '**/secret/**', 'z/**', '**/{a,b}/**', '**/.*', 'doc/**', '**/x.txt', '{a,b}/**',
+NOT_PATTERNS = ['<[a-z]:1,>', '<[a-z0-9.]:>', '{<[a-c]:1,>,*.md}', '<?:1,>', '<*/:1,>b', '{<a:1,>,<b:2,>}', '**/{.*,s*}', '**/{a*,d*}', '**/<s*:1>', '**/.git/**', '**/*.md', 'src/**', '**/a', '*.txt', '**/secret/**', 'z/**', '**/{a,b}/**', '**/.*', 'doc/**', '**/x.txt', '{a,b}/**',
                 '**/[a]', 'a/**', '', '**/q/**', '**/A', '*', '**/b', 'c/**']
 GLOBS = ['*.*', '?', '[!q]*', '*/?', '*/*.*', '{a,b,c,A,B,x.txt}', '*/{a,b,c,x.txt,y.md}', '?/*.*', '**', '**/*.txt', '*', '*/*', 'a/**', 'src/**/*.rs', '**/a/**', '{a,b}/**', '**/*.{txt,md}', 'a/*', '**/.git', 'a/b/**', '*/x.txt', '**/[a-c]',
          'doc/*.md', '**/?', 'z/q/*', '(?i)a/**', '**/src/**', '[ab]/**', '**/x.txt', 'a/**/*.txt', 'secret/*', '<[a-c]/:1,2>*', '**/é', '', 'a', 'c/**/b']
@@ -696,7 +706,7 @@ def glob_cases(sb, rng, ntrees, per_tree, behaviours=False, faults=False):
     cases, nodes = [], []
     g = G.ExprGen(rng, wild=0.0, maxdepth=2)
     for _ in range(ntrees):
-        base, locked = sb.new_tree(rng, faults=faults)
+        base, locked = sb.new_tree(rng, faults=faults, link_base=(not faults and rng.random() < 0.2))
         dirs = []
         if behaviours:
             for dp, dns, fns in os.walk(base):
@@ -721,6 +731,11 @@ def glob_cases(sb, rng, ntrees, per_tree, behaviours=False, faults=False):
                 if x < 0.7:
                     lo, hi = sorted([rng.randint(0, 4), rng.randint(0, 4)])
                     mind, maxd = (str(lo) if lo > 0 and rng.random() < 0.8 else '-'), (str(hi) if rng.random() < 0.8 else '-')
+                elif x < 0.85:
+                    # a minimum only, no greater than the number of prefix components: the prefix directory itself stays inside
+                    npre = len([c_ for c_ in _PREFIX.get(e, '').split('/') if c_])
+                    if npre:
+                        mind = str(rng.randint(1, npre))
             node = resolved(base, link == 'T', locked)
             pre = _PREFIX.get(e, '').strip('/')
             if pre and link == 'T' and os.path.isdir(os.path.join(base, pre)):
@@ -1012,11 +1027,24 @@ def c20(res, rng, tier, replay=None):
                 'the entries are those of the resolved view with every fault replaced by nothing')
     sb = Sandbox('C20')
     try:
-        cases, meta = [], []
+        cases, meta, root_cases = [], [], []
         if not can_fault():
             res.notes.append('setpriv is not usable: unreadable directories cannot be produced, only link faults are exercised')
         for _ in range(ntrees):
             base, locked = sb.new_tree(rng, faults=True)
+            # faults next to one another and right after a directory entry, whatever the order the directory is read in: a directory
+            # of dangling links only, and a dangling link beside an empty directory
+            if rng.random() < 0.6:
+                try:
+                    dl = os.path.join(base, rng.choice(['zl', 'a-links', 'M']))
+                    os.makedirs(dl)
+                    for k_ in range(rng.randint(2, 3)):
+                        os.symlink('nowhere-%d' % k_, os.path.join(dl, 'l%d' % k_))
+                    dm = os.path.join(base, rng.choice(['zm', 'b-mix']))
+                    os.makedirs(os.path.join(dm, 'e'))
+                    os.symlink('nowhere', os.path.join(dm, rng.choice(['d', 'f'])))
+                except OSError:
+                    pass
             for link in ('F', 'T'):
                 node = resolved(base, link == 'T', locked)
                 layers = []
@@ -1027,6 +1055,22 @@ def c20(res, rng, tier, replay=None):
                 # a minimum depth hides entries, never faults: the same walk with entries above a minimum depth only
                 cases.append(Case(base, node, rng.choice(['P', 'P', glob_mode('**'), glob_mode('**/*.txt')]), link, str(rng.randint(1, 4)), '-', []))
                 meta.append(node)
+                # the fault is the root of the traversal: the invariant prefix of a glob names it (or names nothing at all)
+                fl = [p_ for p_, n_ in preorder(node) if n_[0] in ('E', 'U') and p_ and '\\' not in p_]
+                for fp in rng.sample(fl, min(2, len(fl))) + ['gone-%d' % rng.randint(0, 9)]:
+                    e_ = '/'.join(lit(c_) for c_ in fp.split('/')) + rng.choice(['/**', '/*.txt', '/**/*.txt'])
+                    if safe_glob(e_) and not prefix_through_link(base, e_):
+                        root_cases.append((Case(base, node, glob_mode(e_), link, '-', '-', rng.choice([[], ['N' + hx('**/zz')], ['F']])), fp))
+        for (c_, pi_, pm_, a_, b_), (_, fp) in zip(run_cases([rc[0] for rc in root_cases]), root_cases):
+            res.evaluations += 1
+            res.nontrivial.add((c_.base, c_.mode, c_.link))
+            tie_case(res, c_, pi_, pm_, a_, b_, 'C20')
+            if pi_['head'] == 'ok' and pm_.get('head') == 'ok':
+                errs_ = [y['rel_base'] for y in pi_['yield'] if y['k'] == 'x']
+                merrs = [p_ for (k_, p_, d_) in pm_['yield'] if k_ == 'x']
+                if len(errs_) != len(merrs):
+                    res.oracle_fail('a fault at the root of the traversal is not reported as exactly one error item',
+                                    {'case': c_.describe(), 'prefix': fp, 'errors': errs_[:5], 'expected': merrs[:5]})
         results = run_cases(cases)
         for i, node in enumerate(meta):
             (c, pi, pm, a, b) = results[3 * i]
